@@ -22,7 +22,7 @@ CFG = {
     "pre": regenerate,
     "theory_files": ["theories/Geom/AlgebraInst.v", "theories/Geom/AlgebraMatProofs.v",
                      "theories/Geom/AlgebraMatInvProofs.v", "theories/Geom/AlgebraQuatProofs.v",
-                     "theories/Geom/AlgebraQuatRProofs.v", "theories/Geom/AlgebraTrsProofs.v",
+                     "theories/Geom/AlgebraQuatRProofs.v", "theories/Geom/AlgebraTrsProofs.v", "theories/Geom/AlgebraArrayProofs.v",
                      "theories/Geom/AlgebraAabbProofs.v"],
     "level_text": "Coq theorems about Gallina definitions GENERATED from the Go sources on every run (tools/go2coq, one "
                   "definition per Go function, generic in the scalar type): Matrix4x4 Add entry-wise, Multiply "
